@@ -106,3 +106,37 @@ Definition poll_gap (s : wst) (gap : list eop) : bool * wst :=
       end
   end.
 Definition poll (s : wst) (gap : list eop) : wst := snd (poll_gap s gap).
+
+(* ---------- several tasks waiting at once (sends from several tasks on one peerless socket) ----------
+   The waiters share the balancer, the notify_waiters call counter and the deactivated flag; each has its own
+   program counter. notify_waiters() wakes EVERY Notified future that exists (that is what distinguishes it from
+   notify_one(), which hands one permit to one waiter). *)
+Record mwst := mkMW { m_bal : bal; m_calls : nat; m_deact : bool; m_pcs : list wpc }.
+Definition mw0 (n : nat) : mwst := mkMW bal0 0 false (repeat PIdle n).
+(* waiter i seen as a single-waiter system (repaired order) *)
+Definition mproj (m : mwst) (i : nat) : wst := mkW (m_bal m) (m_calls m) (m_deact m) true (nth i (m_pcs m) (PDone true)).
+Fixpoint set_nth {A} (i : nat) (x : A) (l : list A) : list A :=
+  match l, i with
+  | [], _ => []
+  | _ :: t, O => x :: t
+  | h :: t, S j => h :: set_nth j x t
+  end.
+Inductive msch := MW (i : nat) | ME (e : eop).
+Definition mstep (m : mwst) (x : msch) : mwst :=
+  match x with
+  | MW i =>
+      if (i <? length (m_pcs m))%nat then
+        match wstep (mproj m i) with
+        | Some s' => mkMW (m_bal m) (m_calls m) (m_deact m) (set_nth i (w_pc s') (m_pcs m))
+        | None => m
+        end
+      else m
+  | ME e => let s' := estep (mproj m 0) e in mkMW (w_bal s') (w_calls s') (w_deact s') (m_pcs m)
+  end.
+Definition mrun (xs : list msch) (m : mwst) : mwst := fold_left mstep xs m.
+(* what waiter i sees of a schedule *)
+Definition msched_of (i : nat) (x : msch) : list sch :=
+  match x with
+  | MW j => if (j =? i)%nat then [SW] else []
+  | ME e => [SE e]
+  end.
